@@ -39,6 +39,7 @@ Section WorldThm.
           replace (length l - Init.Nat.min (length l) (length (t_slots (v_tbl src))))%nat with 0%nat by lia.
           cbn [firstn]. rewrite app_nil_r. exact Hfs.
       + exact Hloc.
+    - pose proof (r_tight _ _ _ _ R) as HT. unfold dend in *. destruct (has_varying L); exact HT.
   Qed.
 
   Lemma mcopy_prefix ms base used x : 0 <= x < used -> mcopy ms 0 base 0 used x = ms x.
@@ -86,6 +87,7 @@ Section WorldThm.
     - exact (r_order _ _ _ _ R).
     - exact (r_cap _ _ _ _ R).
     - exact (r_loc _ _ _ _ R).
+    - exact (r_tight _ _ _ _ R).
   Qed.
 
   Theorem swap_spec K a b la lb : Rep L a la -> Rep L b lb ->
